@@ -20,6 +20,16 @@ def scratch(prefix="verif-"):
     return tempfile.mkdtemp(prefix=prefix, dir=base)
 
 
+def die_with_parent():
+    """the calling process gets SIGKILL when its parent dies (no orphaned TLC / worker keeps the machine busy)"""
+    try:
+        import ctypes
+        import signal
+        ctypes.CDLL("libc.so.6", use_errno=True).prctl(1, signal.SIGKILL)      # PR_SET_PDEATHSIG
+    except Exception:
+        pass
+
+
 def tlc_cmd(module, cfg, workers, metadir, heap="4g", simulate=None, extra=()):
     cmd = ["java", "-XX:+UseParallelGC", "-Xmx" + heap, "-Xss64m", "-Djava.io.tmpdir=" + os.path.dirname(metadir),
            "-cp", JAR, "tlc2.TLC",
@@ -57,7 +67,7 @@ def run(module, cfg_text, workers=16, heap="4g", env=None, on_line=None, timeout
         p = subprocess.Popen(tlc_cmd(os.path.join(SPEC, module + ".tla"), cfg, workers,
                                      os.path.join(d, "md"), heap, simulate, extra),
                              cwd=SPEC, env=e, stdout=subprocess.PIPE, stderr=subprocess.STDOUT,
-                             text=True, bufsize=1 << 20)
+                             text=True, bufsize=1 << 20, preexec_fn=die_with_parent)
         errmode = 0
         tail = []
         # a silent TLC (an oracle that does not terminate on an unforeseen state) is killed by a timer
